@@ -1437,6 +1437,57 @@ func dspFlowFacts(c *Ctx) (*dspFlow, error) {
 		})
 	}
 	add("serve loop: the handler runs in its own goroutine, which ends in a select-send on completed", hgo && !hinline)
+	// every request gets its handler at once: in the block that holds the `go func(){… Handle …}()`
+	// statement nothing before it can block (no select, send, receive, Wait or Lock)
+	unblocked := false
+	if qa != nil {
+		ast.Inspect(&ast.BlockStmt{List: qa.Body}, func(x ast.Node) bool {
+			var list []ast.Stmt
+			switch y := x.(type) {
+			case *ast.BlockStmt:
+				list = y.List
+			case *ast.CaseClause:
+				list = y.Body
+			case *ast.CommClause:
+				list = y.Body
+			default:
+				return true
+			}
+			for k, st := range list {
+				g, ok := st.(*ast.GoStmt)
+				if !ok {
+					continue
+				}
+				fl, ok := g.Call.Fun.(*ast.FuncLit)
+				if !ok || !dspContainsCall(fl.Body, "Handle") {
+					continue
+				}
+				blocks := false
+				for _, before := range list[:k] {
+					ast.Inspect(before, func(z ast.Node) bool {
+						switch w := z.(type) {
+						case *ast.FuncLit:
+							return false
+						case *ast.SelectStmt, *ast.SendStmt:
+							blocks = true
+						case *ast.UnaryExpr:
+							if w.Op == token.ARROW {
+								blocks = true
+							}
+						case *ast.CallExpr:
+							if s, ok := w.Fun.(*ast.SelectorExpr); ok && (s.Sel.Name == "Wait" || s.Sel.Name == "Lock" || s.Sel.Name == "Acquire") {
+								blocks = true
+							}
+						}
+						return true
+					})
+				}
+				unblocked = !blocks
+			}
+			return true
+		})
+	}
+	add("serve loop: nothing can block between taking a request and starting its handler goroutine", unblocked)
 	if err := dspMakeChanCaps(c, sd.Body, "serve.", &ff.caps); err != nil {
 		return nil, err
 	}
